@@ -52,6 +52,13 @@ def RwErr.name : RwErr → String
   | .crash => "Crash"
   | .fuel => "Fuel"
 
+instance : DecidableEq (Except RwErr Bytes) := fun a b =>
+  match a, b with
+  | .ok x, .ok y => if h : x = y then isTrue (by rw [h]) else isFalse (fun e => h (by cases e; rfl))
+  | .error x, .error y => if h : x = y then isTrue (by rw [h]) else isFalse (fun e => h (by cases e; rfl))
+  | .ok _, .error _ => isFalse (fun e => by cases e)
+  | .error _, .ok _ => isFalse (fun e => by cases e)
+
 def bBackslash : UInt8 := 92
 def bCaret : UInt8 := 94
 def bDollar : UInt8 := 36
@@ -110,8 +117,7 @@ def depthLoop : Option UInt8 → Int → Bytes → Int
 def depthOf (pre : Bytes) : Int := depthLoop Option.none 0 pre
 
 /-- the table as bytes -/
-def ublocks : List (Bytes × Bytes) :=
-  Generated.UBlocks.table.map fun e => (bytesOfString e.1, bytesOfString e.2)
+def ublocks : List (Bytes × Bytes) := Generated.UBlocks.tableBytes
 
 /-- `for (idx = 0; ublock2urange[idx][0]; ++idx) if (!strncmp(text, name, strlen(name))) break;` —
     the first row whose name is a prefix of the text after `\p{Is` -/
@@ -126,6 +132,7 @@ inductive Step where
   | done
   | next (t : Bytes)
   | fail (e : RwErr)
+deriving DecidableEq
 
 /-- one iteration of `while ((ptr = strstr(perl_regex, "\\p{Is")))` -/
 def chblocksStep (fx : Fixes) (tbl : List (Bytes × Bytes)) (ulen : Nat) (t : Bytes) : Step :=
